@@ -37,6 +37,9 @@ def hosts(tier: str) -> t.Dict[str, dict]:
     # the retrying node's class derives from another node class of the pipeline that has different retry settings and runs first
     h['inherits'] = {'nodes': {'I': P(('x', 'plain')), 'B': dict(P(('p', 'in', 'I')), attempts=2, delay=0.3, exceptions=['E2']),
                                'R': dict(P(('p', 'in', 'B')), extends='B'), 'O': P(('r', 'in', 'R'))}, 'input': 'I', 'output': 'O'}
+    # the retrying node is the DESTINATION of a recurrent subgraph: exhausted iterations use the same default policy
+    h['recdest'] = {'nodes': {'I': P(('x', 'plain')), 'T': P(('p', 'in', 'I')), 'R': P(('p', 'in', 'T')),
+                              'O': P(('r', 'rec', {'start': 'T', 'dest': 'R', 'max': 1}))}, 'input': 'I', 'output': 'O'}
     # the retrying node is constructed through its default_factory (constructor argument only the factory supplies): every
     # attempt and get_default must run on a factory-built instance
     h['factory'] = {'nodes': {'I': P(('x', 'plain')), 'R': dict(P(('p', 'in', 'I')), factory=True), 'O': P(('r', 'in', 'R'))},
@@ -60,6 +63,9 @@ def configs(tier: str) -> t.List[dict]:
             for exceptions in ([None, ['E1']] if q else [None, ['E1'], ['E1', 'E2']]):
                 for use_default in (False, True):
                     out.append(dict(attempts=attempts, delay=delay, exceptions=exceptions, use_default=use_default))
+                # get_default itself raises: the node then has no value and fails
+                if delay is None and (attempts in (None, 2)):
+                    out.append(dict(attempts=attempts, delay=delay, exceptions=exceptions, use_default=True, default_raises=True))
     return out
 
 
@@ -85,6 +91,8 @@ def host_plans(host: str, seq: t.List[str]) -> t.List[dict]:
         return [{'R': ['ok'] + seq, 'D': ['next', 'ok']}, {'R': seq, 'D': ['next', 'ok']}]
     if host == 'outside-reader':
         return [{'R': seq, 'D': ['next', 'ok']}, {'R': seq}]
+    if host == 'recdest':
+        return [{'R': ['next', 'next', 'next']}, {'R': ['next'] + seq}, {'R': seq}]
     if host == 'case':
         return [{'R': seq, 'S': ['label:a']}]
     return [{'R': seq}]
@@ -103,6 +111,11 @@ def work(arg: tuple) -> dict:
         nd['mode'] = mode
     out = dict(cases=0, executions=0, transitions=0, states=0, viol=[], internal=[], sample=None)
     bound = 0 if tier == 'quick' else 1
+    if host == 'recdest' and cfg.get('default_raises') and cfg['attempts']:
+        # a raising get_default of an exhausted destination is itself retried by the engine (get_default called attempts + 1
+        # times, one on_node_complete each); neither C12 nor C14 says anything about a failing get_default being retried,
+        # so this corner is not judged
+        return out
     for seq in sequences(cfg['attempts'], tier):
         for plan in host_plans(host, seq):
             case = X.Case(sp, [plan], fam=f'retry-{host}')
